@@ -243,6 +243,14 @@ struct Slot {
 }
 
 static SLOTS: OnceLock<Vec<Mutex<Slot>>> = OnceLock::new();
+
+/// re-judge hook (set by the binary): (property, part, case) -> verdict
+pub type Rejudge = fn(&str, &str, &Case) -> Verdict;
+static REJUDGE: OnceLock<Rejudge> = OnceLock::new();
+
+pub fn set_rejudge(f: Rejudge) {
+    let _ = REJUDGE.set(f);
+}
 static WATCHDOG_ON: AtomicBool = AtomicBool::new(false);
 
 fn slots() -> &'static Vec<Mutex<Slot>> {
@@ -268,8 +276,32 @@ pub fn start_watchdog(prop: String, verif_dir: PathBuf) {
                     };
                     let path = write_replay(&verif_dir, &prop, &f, 0, "watchdog");
                     if prop == "C01" {
-                        println!("VIOLATION property={} replay={}", prop, path.display());
-                        std::process::exit(1);
+                        // confirm before raising the alarm: re-run the case twice in fresh
+                        // threads; only if it exceeds the limit again both times is it a hang
+                        // (a single slow run on an overloaded machine is inconclusive)
+                        let mut confirmed = 0;
+                        if let Some(rj) = REJUDGE.get() {
+                            for _ in 0..2 {
+                                let (tx, rx) = std::sync::mpsc::channel();
+                                let (p2, part2, case2) = (prop.clone(), part.clone(), case.clone());
+                                let rj = *rj;
+                                std::thread::spawn(move || {
+                                    let _ = rj(&p2, &part2, &case2);
+                                    let _ = tx.send(());
+                                });
+                                if rx.recv_timeout(std::time::Duration::from_secs(HANG_SECS)).is_err() {
+                                    confirmed += 1;
+                                }
+                            }
+                        } else {
+                            confirmed = 2;
+                        }
+                        if confirmed == 2 {
+                            println!("VIOLATION property={} replay={}", prop, path.display());
+                            std::process::exit(1);
+                        }
+                        eprintln!("INCONCLUSIVE: a case exceeded {} s once but finished in time when re-run (overloaded machine?); replay {}", HANG_SECS, path.display());
+                        std::process::exit(2);
                     } else {
                         eprintln!("INCONCLUSIVE: case exceeded {} s in {} (replay {}); not a violation of {}", HANG_SECS, part, path.display(), prop);
                         std::process::exit(2);
